@@ -16,8 +16,10 @@ RULE = ("Generated stretched grid (6..10 x 4..8 x 4..8), gridding='same', "
         "model {scalar, per-source, per-receiver, per-frequency, full} x "
         "{noise floor, relative error, both, explicit std}; perturbation "
         "direction dense / single cell / single component.  Oracle: central "
-        "finite differences of the misfit of FRESH simulations (steps 1e-2, "
-        "1e-3, 1e-4) converge at second order to <gradient, direction>; "
+        "finite differences (steps 2e-2, 1e-2, 1e-3 and Richardson) of the "
+        "misfit of forward data obtained by DIRECT solves of the checker-"
+        "assembled operator converge at second order to <gradient, "
+        "direction>; "
         "misfit equals the checker's own formula; shape per anisotropy case; "
         "finite entries.  Non-trivial = misfit>0, |g|>0, all solves "
         "converged; distinct by the whole spec.")
@@ -30,7 +32,7 @@ ASSUMPTIONS = [
     "the smallest effect of a mutant/seeded change was 2.5e-4)",
 ]
 SHARDS = {'quick': 1, 'thorough': 16}
-STEPS = [1e-2, 1e-3, 1e-4]
+STEPS = [2e-2, 1e-2, 1e-3]
 
 
 def spec_strategy():
@@ -104,16 +106,16 @@ def _case_gradient(spec, rec):
     if phi == 0 or scale == 0:
         rec.cls('trivial_zero_misfit_or_gradient')
         return
-    errs = []
-    for eps in STEPS:
-        ms = []
-        for sgn in (+1, -1):
-            s2 = fresh(simgen.perturbed_model(p, d, sgn*eps))
-            ms.append(float(s2.misfit))
-            if not simgen.all_converged(s2):
-                raise Inconclusive("perturbed solve did not converge")
-        fd = (ms[0]-ms[1])/(2*eps)
-        errs.append(abs(fd-gd)/scale)
+    # Central differences of the misfit; the forward data of the perturbed
+    # models come from direct solves of the checker-assembled operator
+    # (simgen.direct_data), the misfit from the checker's own formula.
+    def phi_of(eps):
+        syn_d = simgen.direct_data(p, sim, d, eps)
+        return checker_misfit(obs, syn_d, kw.get('noise_floor'),
+                              kw.get('relative_error'), std)
+    fds = [(phi_of(eps)-phi_of(-eps))/(2*eps) for eps in STEPS]
+    fds.append((4*fds[1]-fds[0])/3)      # Richardson of the first two
+    errs = [abs(fd-gd)/scale for fd in fds]
     best = min(errs)
     srck = '+'.join(sorted(set(spec['problem']['src'])))
     sig = f"{p.mapping}:{p.case}"
@@ -125,13 +127,14 @@ def _case_gradient(spec, rec):
             f"sources {srck}; receivers {spec['problem']['rec']}; "
             f"noise {spec['problem']['noise_kind']}/"
             f"{spec['problem']['noise_shape']}")
-    if errs[0] > 1e-4 and errs[1] > errs[0]/30 + 3*best:
+    if errs[0] > 1e-4 and errs[1] > errs[0]/3 + 3*best:
         raise Violation(f"gradient_not_second_order:{sig}",
-                        f"errors {errs} for steps {STEPS}")
+                        f"errors {errs} for steps {STEPS} + Richardson")
     rec.cls(f"mapping={p.mapping}", f"case={p.case}", f"dir={spec['dir']}",
             f"noise={spec['problem']['noise_kind']}",
             f"noise_shape={spec['problem']['noise_shape']}",
             f"nan={spec['problem']['nan_frac'] > 0}",
+            f"nan_mode={spec['problem'].get('nan_mode')}",
             f"relative_rec={any(p.rec_relative)}",
             *[f"src={k}" for k in set(spec['problem']['src'])],
             *[f"rec={k}" for k in set(spec['problem']['rec'])],
@@ -187,5 +190,5 @@ SUBS = {'gradient': case_gradient, 'explicit': case_explicit}
 
 def run(ctx):
     ctx.regression(SUBS)
-    ctx.explore('gradient', spec_strategy(), case_gradient, ctx.n(16, 40),
+    ctx.explore('gradient', spec_strategy(), case_gradient, ctx.n(40, 60),
                 shrink=not ctx.quick)
